@@ -252,9 +252,10 @@ pub fn run_shard<P: Part>(tier: Tier, seed: u64, shard: u32, of: u32, cases_over
     let mut violation: Option<(Violation, P::Case)> = None;
 
     // directed cases: split round-robin over the shards
-    let directed = P::directed(tier);
+    // exhaustive parts enumerate by re-execution: do it once, in shard 0
+    let directed = if P::EXHAUSTIVE && shard != 0 { vec![] } else { P::directed(tier) };
     for (i, case) in directed.iter().enumerate() {
-        if (i as u32) % of != shard {
+        if !P::EXHAUSTIVE && (i as u32) % of != shard {
             continue;
         }
         if let Err(v) = eval_one::<P>(case, &mut acc, &known, true) {
